@@ -26,11 +26,16 @@ CONSTANTS Kinds,      \* kinds of file in scope: subset of {"clean","fixable","p
           MaxN,       \* pool sizes 1..MaxN
           Modes,      \* subset of {"serial","unordered","ordered"}
           Ops,        \* subset of {"lint","fix"}      fix = lint_paths(fix=True, apply_fixes=True)
+          Renders,    \* subset of BOOLEAN: TRUE = pool runs render in the main process (see Feed)
           EmitOn      \* TRUE: print one JSON record per terminal state (spec -> code replay)
 
 VARIABLES tasks,      \* Seq(file): the expanded path list, in submission order
           outcome,    \* [file -> Out]: what linting the file yields (fixed for the whole run)
           nw, mode, op,
+          mainrender, \* pool runs only: files are rendered by the main process while feeding the pool
+                      \* (ParallelRunner.iter_partials falls back to BaseRunner.iter_partials when the templater
+                      \*  cannot template in a worker or when Linter.user_rules is set)
+          ready,      \* Seq([t, c]): rendered in the main process and submitted, not yet taken by a worker
           queue,      \* Seq(task): not yet handed to a worker            (pool task queue / generator position)
           running,    \* [1..nw -> [t, c]]: task held by each worker and the text version it read (Unread before)
           done,       \* set of [t, c]: results produced, not yet seen by the main thread (pool out-queue)
@@ -41,11 +46,13 @@ VARIABLES tasks,      \* Seq(file): the expanded path list, in submission order
           persisted,  \* files persist_tree was called for (main thread only)
           files,      \* [file -> 0..1]: version of the text on disk
           comp,       \* history: order in which tasks finished (completion order, emitted for replay)
-          ncons,      \* number of results the main thread has taken from the map iterator
+          ncons,      \* number of tasks the main process is done with (results taken from the map iterator,
+                      \* plus files it skipped before submitting them)
           aborted,    \* the run ended with an exception escaping lint_paths
           emitted
 
-vars == <<tasks, outcome, nw, mode, op, queue, running, done, consumed, dropped, skipped, pending,
+cfgv == <<tasks, outcome, nw, mode, op, mainrender>>
+vars == <<cfgv, ready, queue, running, done, consumed, dropped, skipped, pending,
           persisted, files, comp, ncons, aborted, emitted>>
 
 Unread == -1
@@ -84,14 +91,39 @@ SerialGate == mode = "serial" => /\ \A w \in 1..nw : running[w].t = 0
                                  /\ done = {} /\ pending = 0
 
 TakeAt(w, i) ==                       \* pool task handler feeds tasks in order; i = 1 in the algorithm
-  /\ ~aborted /\ running[w].t = 0 /\ i \in 1..Len(queue)
+  /\ ~aborted /\ ~mainrender /\ running[w].t = 0 /\ i \in 1..Len(queue)
   /\ running' = [running EXCEPT ![w] = [t |-> queue[i], c |-> Unread]]
   /\ queue' = RemoveAt(queue, i)
-  /\ UNCHANGED <<tasks, outcome, nw, mode, op, done, consumed, dropped, skipped, pending, persisted, files,
+  /\ UNCHANGED <<cfgv, ready, done, consumed, dropped, skipped, pending, persisted, files,
                  comp, ncons, aborted, emitted>>
 (* Workers are interchangeable: the next task goes to the lowest-numbered idle one (a symmetry reduction,
    no outcome or completion order is lost).                                                             *)
 Take(w) == SerialGate /\ (\A v \in 1..(w - 1) : running[v].t # 0) /\ TakeAt(w, 1)
+
+(* Main-process rendering in a pool run (BaseRunner.iter_partials/iter_rendered driven by the pool's task
+   feeder): files are rendered one by one in submission order *before* they are submitted.  An oversize file
+   is skipped right there (iter_rendered's `except SQLFluffSkipFile`) and never reaches a worker; any other
+   exception leaves the generator, the pool re-raises it from the result iterator and it escapes lint_paths. *)
+SkipAtSubmit(i) ==
+  /\ ~aborted /\ i \in 1..Len(queue)
+  /\ queue' = RemoveAt(queue, i) /\ skipped' = skipped + 1 /\ ncons' = ncons + 1
+  /\ UNCHANGED <<cfgv, ready, running, done, consumed, dropped, pending, persisted, files, comp, aborted, emitted>>
+Feed ==
+  /\ mainrender /\ ~aborted /\ queue # <<>>
+  /\ LET t == Head(queue) IN
+     IF O(t).skip THEN SkipAtSubmit(1)
+     ELSE IF O(t).raise
+     THEN /\ aborted' = TRUE
+          /\ UNCHANGED <<cfgv, ready, queue, running, done, consumed, dropped, skipped, pending, persisted, files,
+                         comp, ncons, emitted>>
+     ELSE /\ ready' = Append(ready, [t |-> t, c |-> files[FileOf(t)]]) /\ queue' = Tail(queue)
+          /\ UNCHANGED <<cfgv, running, done, consumed, dropped, skipped, pending, persisted, files, comp, ncons,
+                         aborted, emitted>>
+TakeReady(w) ==
+  /\ mainrender /\ ~aborted /\ running[w].t = 0 /\ ready # <<>> /\ (\A v \in 1..(w - 1) : running[v].t # 0)
+  /\ running' = [running EXCEPT ![w] = Head(ready)] /\ ready' = Tail(ready)
+  /\ UNCHANGED <<cfgv, queue, done, consumed, dropped, skipped, pending, persisted, files, comp, ncons, aborted,
+                 emitted>>
 
 (* render_file: load_raw_file_and_config reads the text as it is on disk *now*.  In serial mode that call
    sits in the generator outside SequentialRunner.run's try block: an exception other than SQLFluffSkipFile
@@ -102,7 +134,7 @@ Read(w) ==
   /\ IF mode = "serial" /\ O(r.t).raise
      THEN aborted' = TRUE /\ UNCHANGED running
      ELSE aborted' = aborted /\ running' = [running EXCEPT ![w] = [t |-> r.t, c |-> files[FileOf(r.t)]]]
-  /\ UNCHANGED <<tasks, outcome, nw, mode, op, queue, done, consumed, dropped, skipped, pending, persisted,
+  /\ UNCHANGED <<cfgv, ready, queue, done, consumed, dropped, skipped, pending, persisted,
                  files, comp, ncons, emitted>>
 
 FinishOf(w) ==
@@ -111,17 +143,20 @@ FinishOf(w) ==
   /\ done' = done \cup {r}
   /\ running' = [running EXCEPT ![w] = Idle]
   /\ comp' = Append(comp, r.t)
-  /\ UNCHANGED <<tasks, outcome, nw, mode, op, queue, consumed, dropped, skipped, pending, persisted, files,
+  /\ UNCHANGED <<cfgv, ready, queue, consumed, dropped, skipped, pending, persisted, files,
                  ncons, aborted, emitted>>
 Finish(w) == running[w].c # Unread /\ FinishOf(w)
 
 ---------------------------------------------------------------------------------
 (* Main thread.  ParallelRunner.run's loop over the map iterator, then lint_paths' loop body.           *)
-NextInOrder(d) == mode = "ordered" => d.t = ncons + 1           \* imap yields in submission order
+Outstanding == ToSet(queue) \cup {r.t : r \in ToSet(ready)} \cup {d.t : d \in done}
+               \cup {running[w].t : w \in {v \in 1..nw : running[v].t # 0}}
+LeastOf(S)  == CHOOSE x \in S : \A y \in S : x <= y
+NextInOrder(d) == mode = "ordered" => d.t = LeastOf(Outstanding)     \* imap yields in submission order
 
 Seen(d) == /\ ~aborted /\ d \in done /\ pending = 0               \* next item of the map iterator
            /\ done' = done \ {d} /\ ncons' = ncons + 1
-           /\ UNCHANGED <<tasks, outcome, nw, mode, op, queue, running, persisted, files, comp, aborted, emitted>>
+           /\ UNCHANGED <<cfgv, ready, queue, running, persisted, files, comp, aborted, emitted>>
 Skip(d) ==                          \* DelayedException(SQLFluffSkipFile) / iter_rendered's except clause
   Seen(d) /\ skipped' = skipped + 1 /\ UNCHANGED <<consumed, dropped, pending>>
 Drop(d) ==                          \* any other DelayedException: _handle_lint_path_exception, no record
@@ -138,11 +173,11 @@ PersistTo(v) ==                     \* linted_file.persist_tree(), main thread, 
   /\ persisted' = persisted \cup {FileOf(pending)}
   /\ files' = [files EXCEPT ![FileOf(pending)] = v]
   /\ pending' = 0
-  /\ UNCHANGED <<tasks, outcome, nw, mode, op, queue, running, done, consumed, dropped, skipped, comp, ncons,
+  /\ UNCHANGED <<cfgv, ready, queue, running, done, consumed, dropped, skipped, comp, ncons,
                  aborted, emitted>>
 Persist == PersistTo(IF O(pending).fix THEN 1 ELSE files[FileOf(pending)])
 
-Terminal == aborted \/ (queue = <<>> /\ (\A w \in 1..nw : running[w].t = 0) /\ done = {} /\ pending = 0)
+Terminal == aborted \/ (queue = <<>> /\ ready = <<>> /\ (\A w \in 1..nw : running[w].t = 0) /\ done = {} /\ pending = 0)
 
 ---------------------------------------------------------------------------------
 (* What the run reports (projection of the terminal state).                                            *)
@@ -184,8 +219,8 @@ SerialParallelAgree == Terminal => Failing = <<>>
 WriteAfterAdd == \A f \in F : files[f] = 1 => \E c \in consumed : FileOf(c.t) = f
 TypeOK == /\ skipped \in 0..Len(tasks) /\ pending \in 0..Len(tasks)
           /\ \A w \in 1..nw : running[w].t \in 0..Len(tasks)
-          /\ Cardinality({t \in T : \E w \in 1..nw : running[w].t = t}) + Len(queue) + Cardinality(done)
-             + ncons = Len(tasks)            \* every task is in exactly one place
+          /\ Cardinality({t \in T : \E w \in 1..nw : running[w].t = t}) + Len(queue) + Len(ready) + Cardinality(done)
+             + ncons = Len(tasks)            \* every task is in exactly one place (ncons: disposed of by main)
 
 ---------------------------------------------------------------------------------
 (* Scope: every path list over <= MaxFiles distinct kinds (one file per kind), optionally naming one of
@@ -197,6 +232,8 @@ PathLists == LET base == UNION {SetToSeqs(S) : S \in UNION {kSubset(k, Kinds) : 
 Init == /\ tasks \in PathLists
         /\ outcome = [k \in Kinds |-> KindOut(k)]
         /\ mode \in Modes /\ op \in Ops
+        /\ (Len(tasks) = 1 => mode = "serial")          \* lint_paths: `if files_count == 1: processes = 1`
+        /\ mainrender \in (IF mode = "serial" THEN {FALSE} ELSE Renders) /\ ready = <<>>
         /\ nw \in (IF mode = "serial" THEN {1} ELSE 1..MaxN)
         /\ queue = [i \in 1..Len(tasks) |-> i]
         /\ running = [w \in 1..nw |-> Idle]
@@ -206,21 +243,21 @@ Init == /\ tasks \in PathLists
 
 Emit == /\ Terminal /\ ~emitted /\ emitted' = TRUE
         /\ EmitOn => PrintT(ToJson(
-             [tasks |-> tasks, n |-> nw, mode |-> mode, op |-> op, comp |-> comp,
+             [tasks |-> tasks, n |-> nw, mode |-> mode, op |-> op, mainrender |-> mainrender, comp |-> comp,
               aborted |-> aborted,
               recs |-> SetToSeq(Recs), skipped |-> skipped, written |-> SetToSeq({f \in F : files[f] = 1}),
               exit0 |-> Exit(FALSE), exit1 |-> Exit(TRUE),
               exp |-> [recs |-> SetToSeq(ExpRecs), may |-> SetToSeq(MayRecs), skipped |-> ExpSkipped,
                        written |-> SetToSeq(ExpWritten), exit0 |-> ExpExit(FALSE), exit1 |-> ExpExit(TRUE)],
               failing |-> Failing]))
-        /\ UNCHANGED <<tasks, outcome, nw, mode, op, queue, running, done, consumed, dropped, skipped, pending,
+        /\ UNCHANGED <<cfgv, ready, queue, running, done, consumed, dropped, skipped, pending,
                        persisted, files, comp, ncons, aborted>>
 
-Next == \/ \E w \in 1..nw : Take(w) \/ Read(w) \/ Finish(w)
-        \/ Consume \/ Persist \/ Emit
+Next == \/ \E w \in 1..nw : Take(w) \/ TakeReady(w) \/ Read(w) \/ Finish(w)
+        \/ Feed \/ Consume \/ Persist \/ Emit
 Spec == Init /\ [][Next]_vars
 (* VIEW for the verification run: the history `comp` and the constant `outcome` influence no transition
    and no invariant, so states differing only there are merged.  The emission run keeps them apart.     *)
-NoHistory == <<tasks, nw, mode, op, queue, running, done, consumed, dropped, skipped, pending, persisted,
+NoHistory == <<tasks, nw, mode, op, mainrender, ready, queue, running, done, consumed, dropped, skipped, pending, persisted,
                files, ncons, aborted, emitted>>
 =============================================================================
